@@ -2,6 +2,8 @@
 
 package main
 
+import "time"
+
 // verifHook is installed by verification harnesses (build tag "verif") to
 // observe and gate the reader/writer goroutines at named points.
 var verifHook func(point string)
@@ -10,4 +12,16 @@ func verifPoint(point string) {
 	if h := verifHook; h != nil {
 		h(point)
 	}
+}
+
+// verifRotateEvery, when non-zero, makes the writer start a new file after
+// this interval instead of newFileInterval (one minute), so that harnesses
+// can exercise file rotation.
+var verifRotateEvery time.Duration
+
+func verifRotation(c <-chan time.Time) <-chan time.Time {
+	if verifRotateEvery > 0 {
+		return time.After(verifRotateEvery)
+	}
+	return c
 }
